@@ -92,6 +92,11 @@ CLAIMS = {
         technique='symbolic execution (CrossHair/z3) of the statement-instrumented real ModuleLoader.build/get against a model file system with symbolic crash step, flushed prefix and two-writer schedule; real digest()/_get_module_name() with an injective hash recorder over symbolic option choices',
         text='Every crash point x flushed prefix and every interleaving of two writers (bounded schedule) leaves nothing or a complete module under the looked-up name; two configurations differing in one compile-relevant item never share a module file name.',
         note='Trusted: the model file system (POSIX process-crash semantics), perfect-hash assumption, CrossHair. Interleaving points are inserted by AST instrumentation at check time (no hooks in /repo).'),
+    'C14': dict(
+        engine='S+G', level='model_checking', design_ref='DESIGN.md 4 C14',
+        technique='symbolic execution (CrossHair/z3) of the statement-instrumented real cook_check/cook for two threads with a symbolic schedule; symbolic execution of compiled templates for determinism / no carried state',
+        text='Every statement-level interleaving of two threads within the bounded symbolic schedule returns what each thread returns alone; repeated/independent/interleaved renders agree for all symbolic arguments in range.',
+        note='Trusted: statement-granular scheduling model (CPython may pre-empt inside a statement), stubbed mtime/read/compile step, CrossHair. Interleaving points are inserted by AST instrumentation at check time (no hooks in /repo).'),
     'C03': dict(
         engine='X+Z', level='model_checking', design_ref='DESIGN.md 4 C03',
         technique='symbolic execution (CrossHair/z3) of iter_xml/match_tag/emitters on shape-enumerated character-symbolic strings; z3 regex inclusion from the live lexer pattern',
